@@ -392,6 +392,103 @@ let cmd_fp (a : sx list) : string =
        | _, _ -> "(inconsistent)")
   | _ -> failwith "fp: arguments"
 
+(* ---------- container files ---------- *)
+open VectoredWrite
+open Container
+let sx_sched s : bool * wans list =
+  match head s with
+  | ("vec", _) -> (true, [Accept (n_of_int 1000000)])
+  | ("sched", v :: answers) ->
+      (atom v <> "0",
+       (match L.map (fun a -> match head a with
+                        | ("a", [k]) -> Accept (n_of_z (Z.min (Z.of_string (atom k)) (Z.of_int 1000000)))
+                        | ("i", _) -> Interrupted | ("z", _) -> Zero | ("h", _) -> Hard
+                        | _ -> failwith "bad answer") answers with
+        | [] -> [Accept (n_of_int 1000000)]
+        | l -> l))
+  | _ -> failwith "bad sink"
+let show_wout = function
+  | WROk -> "ok" | WRErr -> "err" | WRGone -> "gone" | WRPanic _ -> "panic" | WRUnmodelled -> "unmodelled"
+
+(* cw xJSON SCHEMA null BLOCKSIZE xSYNC SINK (meta (xK xV)...) OP... *)
+let cmd_cw (a : sx list) : string =
+  match a with
+  | json :: sch :: codec :: bsz :: sync :: sink :: meta :: ops ->
+      if fst (head codec) <> "null" then "(unmodelled)" else
+      (match frozen sch with
+       | Ok fs ->
+           let (vectored, sched) = sx_sched sink in
+           let user = (match head meta with
+                       | ("meta", kvs) -> L.map (function Ls [k; v] -> (sx_bytes k, sx_bytes v) | _ -> failwith "bad meta") kvs
+                       | _ -> failwith "bad meta") in
+           let syncb = sx_bytes sync in
+           let wops = L.map (fun o -> match head o with
+                                      | ("ser", [v]) -> WSerialize (sx_sval v)
+                                      | ("push", [b; n]) -> WPush (sx_bytes b, sx_n n)
+                                      | ("finish", _) -> WFinish
+                                      | ("into_inner", _) -> WIntoInner
+                                      | ("drop", _) -> WDrop
+                                      | _ -> failwith "bad op") ops in
+           let (r0, st0) = wbuild syncb (sx_bytes json) (L.map n_of_int [110; 117; 108; 108]) user sched in
+           (match r0 with
+            | WROk ->
+                let (rs, stf) = wrun (fun x -> x) fs (sx_n bsz) syncb vectored st0 wops in
+                "(ok (built " ^ string_of_int (L.length st0.w_sink) ^ ")"
+                ^ String.concat "" (L.map (fun (r, l) -> " (" ^ show_wout r ^ " " ^ ns l ^ ")") rs)
+                ^ " " ^ hex stf.w_sink ^ ")"
+            | _ -> "(build-err " ^ string_of_int (L.length st0.w_sink) ^ " " ^ hex st0.w_sink ^ ")")
+       | _ -> "(bad-schema)")
+  | _ -> failwith "cw: arguments"
+
+let show_item = function
+  | IValue d -> "(ok " ^ show_dval d ^ ")"
+  | IEof -> "eof"
+  | IErr EData -> "(err data)" | IErr EIo -> "(err io)"
+  | IPanic _ -> "(panic)" | IUnmodelled -> "(unmodelled)"
+
+(* cr xFILE MODE TARGET MAXCALLS SCHEMA : the reader over a null-codec file whose schema is SCHEMA;
+   prints the metadata entries as found and the items *)
+let cmd_cr (a : sx list) : string =
+  match a with
+  | file :: mode :: tgt :: maxc :: sch :: _ ->
+      let bytes = sx_bytes file in
+      let rs = (match head mode with
+                | ("slice", _) -> Reader.slice_reader bytes
+                | ("chunks", plan) -> Reader.chunked_reader bytes (L.map sx_n plan) (n_of_z (Z.of_int (512 * 1024 * 1024)))
+                | _ -> failwith "bad mode") in
+      (match cr_open rs with
+       | Ok ((entries, sy), r1) ->
+           (match frozen sch with
+            | Ok fs ->
+                let items = cr_run fs De.cfg_default sy (sx_target tgt) (nat_of_int (int_of_string (atom maxc)))
+                              { cr_state = RNotInBlock r1; cr_pretend_eof = false } in
+                (* stop after the second eof like the harness *)
+                let rec cut eofs = function
+                  | [] -> []
+                  | IEof :: rest -> if eofs >= 1 then [IEof] else IEof :: cut (eofs + 1) rest
+                  | x :: rest -> x :: cut eofs rest in
+                let meta = L.sort compare (L.map (fun (k, v) -> (hex k, hex v)) entries) in
+                "(ok (meta" ^ String.concat "" (L.map (fun (k, v) -> " (" ^ k ^ " " ^ v ^ ")") meta) ^ ")"
+                ^ String.concat "" (L.map (fun i -> " " ^ show_item i) (cut 0 items)) ^ ")"
+            | _ -> "(bad-schema)")
+       | Err _ -> "(open-err)"
+       | Panic _ -> "(panic)"
+       | _ -> "(unmodelled)")
+  | _ -> failwith "cr: arguments"
+
+(* fileparse xFILE -> (ok (meta (xK xV)...) xSYNC (blk COUNT xDATA)...) | (invalid) *)
+let cmd_fileparse (a : sx list) : string =
+  match a with
+  | [f] ->
+      (match FileSpec.ref_parse (sx_bytes f) with
+       | None -> "(invalid)"
+       | Some rf ->
+           "(ok (meta" ^ String.concat "" (L.map (fun (k, v) -> " (" ^ hex k ^ " " ^ hex v ^ ")") rf.FileSpec.rf_meta) ^ ") "
+           ^ hex rf.FileSpec.rf_sync
+           ^ String.concat "" (L.map (fun b -> " (blk " ^ zs b.FileSpec.rb_count ^ " " ^ hex b.FileSpec.rb_data ^ ")") rf.FileSpec.rf_blocks)
+           ^ ")")
+  | _ -> failwith "fileparse: arguments"
+
 let run_case (line : string) : string =
   try
     match parse_many line with
@@ -403,6 +500,9 @@ let run_case (line : string) : string =
          | "fp" -> cmd_fp args
          | "de" -> cmd_de args
          | "spec" -> cmd_spec args
+         | "cw" -> cmd_cw args
+         | "cr" -> cmd_cr args
+         | "fileparse" -> cmd_fileparse args
          | _ -> failwith ("unknown command " ^ cmd))
     | _ -> "(bad-case)"
   with
